@@ -9,16 +9,18 @@ RULE = ("P1: shared with C11 (MC_Linalg): code-shaped LU + lu_solve + the column
         "multi-RHS slice solver, slice inverse, Matrix solve for Vector and for Matrix, Matrix inverse): finite, within"
         " 2^-30 of the exact rationals, A * inverse = I; every third case again with A and B scaled by powers of two (A"
         " 2^-110; B 2^-60; A 2^60 and B 2^-60; A 2^90 and B 2^200; both 2^-600; both 2^520 - where squares of the "
-        "entries leave the f64 range), expected solution scaled accordingly (homogeneity, checked by TLC for factors 2 "
-        "and 3); the same exact answer is demanded whatever the routing; P3: random unimodular integer systems of order"
-        " 2..7 (and their SPD Gram matrices) with planted integer solutions and 1..4 right-hand sides: TLC checks A X ="
-        " B exactly on the rationalised result of every entry point; the real-valued classes of the quantifier (dense, "
-        "SPD, symmetric indefinite with positive diagonal, diagonally dominant, permuted/scaled triangular incl. scale "
-        "1e-17, graded to cond 1e10, pivot-trap columns with a tiny diagonal and several larger candidates, matrices Q1"
-        " diag(sigma) Q2 with singular values graded to 1e-10 - not curable by row scaling; order 1..32, 1..6 columns; "
-        "and orders 1..5 with MORE columns than unknowns, right-hand sides planted from a solution of order one, where "
-        "multiplying by the inverse is visibly not backward stable) through the observation 'finite and scaled residual"
-        " <= 64 n' (residual in double-double by the harness; measured maximum on the unchanged tree: 1.0 n).")
+        "entries leave the f64 range; at 2^-600 the same equations in reversed order are solved right afterwards: a "
+        "second, different tiny system is solved on its own merits), expected solution scaled accordingly (homogeneity,"
+        " checked by TLC for factors 2 and 3); the same exact answer is demanded whatever the routing; P3: random "
+        "unimodular integer systems of order 2..7 (and their SPD Gram matrices) with planted integer solutions and 1..4"
+        " right-hand sides: TLC checks A X = B exactly on the rationalised result of every entry point; the real-valued"
+        " classes of the quantifier (dense, SPD, symmetric indefinite with positive diagonal, diagonally dominant, "
+        "permuted/scaled triangular incl. scale 1e-17, graded to cond 1e10, pivot-trap columns with a tiny diagonal and"
+        " several larger candidates, matrices Q1 diag(sigma) Q2 with singular values graded to 1e-10 - not curable by "
+        "row scaling; order 1..32, 1..6 columns; and orders 1..5 with MORE columns than unknowns, right-hand sides "
+        "planted from a solution of order one, where multiplying by the inverse is visibly not backward stable) through"
+        " the observation 'finite and scaled residual <= 64 n' (residual in double-double by the harness; measured "
+        "maximum on the unchanged tree: 1.0 n).")
 ASSUMPTIONS = ["exact oracle limited to order <= 4 / small integers (32-bit TLC integers); real classes only through the residual observation, whose a-priori bound is evaluated by the harness",
                "singular matrices are outside the property's domain and are not judged"]
 EXHAUSTIVE = True
